@@ -132,6 +132,45 @@ theorem firstHit_prefix (g : Graph) (x : Name) (pre post : List Nat) (d : Decl)
     | some r => rw [hh] at h; exact h
     | none => rw [hh] at h; exact ih h
 
+theorem ancestors_valid {g : Graph} {s : Nat} {l : List Nat} (h : Ancestors g s l) :
+    ∀ a ∈ l, ∃ sc, g.scopes[a]? = some sc := by
+  induction h with
+  | root hs _ =>
+    intro a ha
+    simp only [List.mem_singleton] at ha
+    subst ha; exact ⟨_, hs⟩
+  | step hs _ _ ih =>
+    intro a ha
+    simp only [List.mem_cons] at ha
+    rcases ha with rfl | ha
+    · exact ⟨_, hs⟩
+    · exact ih a ha
+
+/-- on a graph whose imports point at declarations the lookup never panics -/
+theorem firstHit_no_panic {g : Graph} (iok : ImportsOk g) (x : Name) :
+    ∀ (chain : List Nat), (∀ a ∈ chain, ∃ sc, g.scopes[a]? = some sc) →
+      ∀ p, firstHit g x chain ≠ .panic p := by
+  intro chain
+  induction chain with
+  | nil => intro _ p h; cases h
+  | cons a l ih =>
+    intro hv p
+    obtain ⟨sc, hs⟩ := hv a List.mem_cons_self
+    have ihl := ih (fun b hb => hv b (List.mem_cons_of_mem _ hb)) p
+    simp only [firstHit, hitAt]
+    cases hd : g.decl ⟨a, x⟩ with
+    | some d => intro h; cases h
+    | none =>
+      simp only [hs]
+      cases hl : sc.imports.lookup x with
+      | none => exact ihl
+      | some t =>
+        simp only
+        have := iok a sc hs x t (lookup_mem hl)
+        cases ht : g.decl t with
+        | none => rw [ht] at this; cases this
+        | some d => intro h; cases h
+
 /-! ## later segments -/
 
 /-- the scopes `walkMembers` reads declarations from -/
